@@ -188,6 +188,13 @@ pub fn memory_parts(mem: &MemoryAreas) -> Vec<(&'static str, u64)> {
   v.push(("wram", rt::hash_bytes(&mem.work_ram)));
   v.push(("oam", rt::hash_bytes(&mem.oam_ram)));
   v.push(("hram", rt::hash_bytes(&mem.high_ram)));
+  v.extend(device_parts(mem));
+  v
+}
+
+/// The non-RAM part of the state: I/O registers, device phases, bank registers.
+pub fn device_parts(mem: &MemoryAreas) -> Vec<(&'static str, u64)> {
+  let mut v = Vec::with_capacity(12);
   let mut io = [0u8; 0x80];
   for i in 0..0x80u16 {
     io[i as usize] = mem.io.get_byte(0xff00 + i);
